@@ -228,18 +228,18 @@ macro_rules! impl_dual_num {
                     )
                     .into_any());
                 }
-                if let Ok(mut r) = rhs.extract::<PyReadwriteArrayDyn<PyObject>>() {
-                    // check data type of first element
+                if let Ok(r) = rhs.extract::<PyReadonlyArrayDyn<PyObject>>() {
+                    // check data type of the elements
                     if r.as_array()
-                        .get(0)
-                        .unwrap()
-                        .bind(rhs.py())
-                        .is_instance_of::<Self>()
+                        .iter()
+                        .all(|ri| ri.bind(rhs.py()).is_instance_of::<Self>())
                     {
-                        r.as_array_mut().map_inplace(|ri| {
-                            *ri = Py::new(rhs.py(), Self(self.0.clone() + ri.extract::<Self>(rhs.py()).unwrap().0)).unwrap().into_any()
-                        });
-                        return Ok(r.as_any().clone());
+                        return Ok(PyArray::from_owned_object_array(
+                            rhs.py(),
+                            r.as_array()
+                                .map(|ri| Py::new(rhs.py(), Self(self.0.clone() + ri.extract::<Self>(rhs.py()).unwrap().0)).unwrap()),
+                        )
+                        .into_any());
                     } else {
                         return Err(PyErr::new::<PyTypeError, _>(format!(
                             "Operation with the provided object type is not implemented. Supported data types are 'float', 'int' and '{}'.",
@@ -274,18 +274,18 @@ macro_rules! impl_dual_num {
                     )
                     .into_any());
                 }
-                if let Ok(mut r) = rhs.extract::<PyReadwriteArrayDyn<PyObject>>() {
-                    // check data type of first element
+                if let Ok(r) = rhs.extract::<PyReadonlyArrayDyn<PyObject>>() {
+                    // check data type of the elements
                     if r.as_array()
-                        .get(0)
-                        .unwrap()
-                        .bind(rhs.py())
-                        .is_instance_of::<Self>()
+                        .iter()
+                        .all(|ri| ri.bind(rhs.py()).is_instance_of::<Self>())
                     {
-                        r.as_array_mut().map_inplace(|ri| {
-                            *ri = Py::new(rhs.py(), Self(self.0.clone() - ri.extract::<Self>(rhs.py()).unwrap().0)).unwrap().into_any()
-                        });
-                        return Ok(r.as_any().clone());
+                        return Ok(PyArray::from_owned_object_array(
+                            rhs.py(),
+                            r.as_array()
+                                .map(|ri| Py::new(rhs.py(), Self(self.0.clone() - ri.extract::<Self>(rhs.py()).unwrap().0)).unwrap()),
+                        )
+                        .into_any());
                     } else {
                         return Err(PyErr::new::<PyTypeError, _>(format!(
                             "Operation with the provided object type is not implemented. Supported data types are 'float', 'int' and '{}'.",
@@ -320,18 +320,18 @@ macro_rules! impl_dual_num {
                     )
                     .into_any());
                 }
-                if let Ok(mut r) = rhs.extract::<PyReadwriteArrayDyn<PyObject>>() {
-                    // check data type of first element
+                if let Ok(r) = rhs.extract::<PyReadonlyArrayDyn<PyObject>>() {
+                    // check data type of the elements
                     if r.as_array()
-                        .get(0)
-                        .unwrap()
-                        .bind(rhs.py())
-                        .is_instance_of::<Self>()
+                        .iter()
+                        .all(|ri| ri.bind(rhs.py()).is_instance_of::<Self>())
                     {
-                        r.as_array_mut().map_inplace(|ri| {
-                            *ri = Py::new(rhs.py(), Self(self.0.clone() * ri.extract::<Self>(rhs.py()).unwrap().0)).unwrap().into_any()
-                        });
-                        return Ok(r.as_any().clone());
+                        return Ok(PyArray::from_owned_object_array(
+                            rhs.py(),
+                            r.as_array()
+                                .map(|ri| Py::new(rhs.py(), Self(self.0.clone() * ri.extract::<Self>(rhs.py()).unwrap().0)).unwrap()),
+                        )
+                        .into_any());
                     } else {
                         return Err(PyErr::new::<PyTypeError, _>(format!(
                             "Operation with the provided object type is not implemented. Supported data types are 'float', 'int' and '{}'.",
@@ -366,18 +366,18 @@ macro_rules! impl_dual_num {
                     )
                     .into_any());
                 }
-                if let Ok(mut r) = rhs.extract::<PyReadwriteArrayDyn<PyObject>>() {
-                    // check data type of first element
+                if let Ok(r) = rhs.extract::<PyReadonlyArrayDyn<PyObject>>() {
+                    // check data type of the elements
                     if r.as_array()
-                        .get(0)
-                        .unwrap()
-                        .bind(rhs.py())
-                        .is_instance_of::<Self>()
+                        .iter()
+                        .all(|ri| ri.bind(rhs.py()).is_instance_of::<Self>())
                     {
-                        r.as_array_mut().map_inplace(|ri| {
-                            *ri = Py::new(rhs.py(), Self(self.0.clone() / ri.extract::<Self>(rhs.py()).unwrap().0)).unwrap().into_any()
-                        });
-                        return Ok(r.as_any().clone());
+                        return Ok(PyArray::from_owned_object_array(
+                            rhs.py(),
+                            r.as_array()
+                                .map(|ri| Py::new(rhs.py(), Self(self.0.clone() / ri.extract::<Self>(rhs.py()).unwrap().0)).unwrap()),
+                        )
+                        .into_any());
                     } else {
                         return Err(PyErr::new::<PyTypeError, _>(format!(
                             "Operation with the provided object type is not implemented. Supported data types are 'float', 'int' and '{}'.",
